@@ -23,39 +23,78 @@ ASSUMPTIONS = [
     'cleanup, cleanup resolves every registered waiter and delivers the final notification exactly once, every '
     'awaited future is registered where cleanup finds it, and nothing can be registered after cleanup',
     'asyncio.Future contract (trusted): cancelled() implies done(); set_result/set_exception on a done or '
-    'cancelled future raise InvalidStateError (stated as a precondition at every call site) and make the future '
-    'done; create_future() returns a future nobody has seen; Event.set() makes the event set; futures are '
-    'cancelled only by code outside the functions under contract (cancelled() is constant during an atomic step)',
+    'cancelled future raise InvalidStateError, set_exception(None) is a TypeError (all three stated as '
+    'preconditions at every call site) and make the future done; create_future() returns a future nobody has seen; '
+    'Event.set() makes the event set; futures are cancelled only by code outside the functions under contract '
+    '(cancelled() is constant during an atomic step)',
     'waiter-registry class invariant (pairwise distinct, pending-or-cancelled futures in _open_waiter / '
     '_request_waiters / _global_request_waiters, `_conn set <=> _recv_chan set`) is required by the cleanup '
-    'functions and proved on these writers: SSHChannel._cleanup, process_connection_close, '
-    'process_open_confirmation, process_open_failure, _process_response, _make_request (at its await), '
-    'SSHConnection._process_global_response, _make_global_request (at its await); NOT under contract: '
-    'SSHChannel.__init__/_open (the only writers of _conn/_recv_chan/_open_waiter besides the above) and the '
-    'sites that resolve SSHConnection._waiter (they clear _wait in the same step: connection.py 1986, 2127, '
-    '2567, 2612, 2646)',
-    'close-handshake class invariant hs_inv (recv close_pending/closed => send closed) is proved on _close_send, '
-    '_discard_recv, _flush_send_buf, _flush_recv_buf, close, abort, _process_close, process_connection_close, '
-    'process_open_confirmation; NOT under contract here: write_eof and _process_eof (they never produce '
-    'close_pending/closed) and _finish_open_request (sets both sides to open)',
-    'session callbacks invoked while data is delivered (_deliver_data -> session.data_received) may pause reading '
-    'but do not re-enter close()/abort() of the same channel; the data path of _flush_send_buf (encoders do not '
-    'raise, window accounting) is C08\'s contract and abstract here',
+    'functions and proved on all writers: SSHChannel.__init__ (establishes it), _open (at its await), _cleanup, '
+    'process_connection_close, process_open_confirmation, process_open_failure, _process_response, _make_request '
+    '(at its await), SSHConnection._process_global_response, _make_global_request (at its await)',
+    'conn_waiter_inv (the connect/auth waiter is pending while _wait names a phase) is proved on _cleanup and on '
+    'the five other sites that resolve SSHConnection._waiter, each run as a region of its function (send_newkeys, '
+    'send_userauth_success, _process_userauth_failure, _process_userauth_success x2); SSHConnection.__init__ takes '
+    'the waiter from the options (created pending by connect()/listen()) and is not under contract',
+    'a channel object is opened once: _open requires _open_waiter is None (create()/_open_* of every channel class '
+    'call _open exactly once, right after the constructor); a second concurrent _open would overwrite a pending '
+    'waiter',
+    'close-handshake class invariant hs_inv (recv close_pending/closed => send closed) is proved on '
+    'SSHChannel.__init__, _close_send, _discard_recv, _flush_send_buf, _flush_recv_buf, close, abort, '
+    '_process_close, process_connection_close, process_open_confirmation; NOT under contract here: '
+    'write_eof and _process_eof (they never produce close_pending/closed) and _finish_open_request (sets both '
+    'sides to open)',
+    'session callbacks invoked while data is delivered (_deliver_data -> session.data_received, '
+    'session.eof_received) may pause reading, raise anything, and re-enter close() or abort() of the same channel '
+    '(by the contracts proved for them); other re-entrant calls (write, write_eof, resume_reading) are not '
+    'modelled; the data path of _flush_send_buf (encoders do not raise, window accounting) is C08\'s contract '
+    'and abstract here',
     'chan.process_connection_close(exc) inside SSHConnection._cleanup is used by its channel-level contract '
-    '(proved here on SSHChannel): the channel unregisters itself under its own number, exactly once; '
-    'add_channel refuses new channels once _transport is None, so _channels cannot grow during cleanup',
-    'list(d.values()) is modelled by its definition (a fresh list holding the value of every key exactly once)',
-    'stream: `_eof_received => no pending read waiter` is a class invariant proved on eof_received() and '
-    'connection_lost(); its other writers, the three callers of _block_read (read, readuntil, TunTap read), test '
-    '_eof_received in the same atomic step and are not under contract',
+    '(proved here on SSHChannel): the channel unregisters itself under its own number, exactly once.  The '
+    'cross-object facts behind it - a channel found in conn._channels has _conn set and is stored under the number '
+    'it remembers in _recv_chan - are established by SSHChannel.__init__ (Spec chan_init: registered exactly once, '
+    '_recv_chan = the number add_channel returned, _conn set) together with add_channel / remove_channel (Specs: '
+    'fresh number, only that number removed) and kept by SSHChannel._cleanup (clears _conn and _recv_chan with the '
+    'unregistration); they are argued across the two objects, not a single obligation.  chan_num(ch) is a ghost '
+    'function DEFINED by add_channel\'s return value (definitional lemma in Spec add_channel)',
+    'add_channel: fewer than 2**32 channels are registered (ghost witness of a free number; otherwise its scan '
+    'loop would not terminate); it refuses on a closed connection (proved), so _channels cannot grow once '
+    '_force_close has run',
+    'list(d.values()) is modelled by its definition (a fresh list holding the value of every key exactly once); '
+    'bool(d) of a dict is "d has a key" (definitional lemma where a cleanup tests `if self._remote_listeners:`)',
+    'stream: `_eof_received => no reader parked on a pending future` is a class invariant proved on eof_received(), '
+    'connection_lost() and _block_read (the only function that stores a waiter); _block_read requires EOF not '
+    'latched, which is an obligation at each of its three call sites (read, readuntil, TunTap read).  read and '
+    'readuntil are the Specs of contracts/c19.py re-run under C09 with that obligation: their environment model '
+    '(rely condition at the awaits, lock step, _maybe_resume_reading as an environment step, AnyStr = bytes, literal '
+    'and newline separators only) is C19\'s, see its ASSUMPTIONS',
+    'a reader\'s slot _read_waiters[datatype] is its own while it is parked: readers of one datatype are serialised '
+    'by the read lock in read/readuntil; SSHTunTapStreamSession.read takes no lock, so two concurrent TUN/TAP '
+    'reads of one stream are outside this contract (the second would overwrite the first one\'s waiter)',
     'stream datatype tables have the keys {None} or {None, EXTENDED_DATA_STDERR} (connection_made fills them '
     'from get_read_datatypes()/get_write_datatypes(), which are {} or {EXTENDED_DATA_STDERR} for every channel '
     'class in channel.py); a set of drain waiters is viewed as a list in iteration order where it is iterated '
     '(_unblock_drain, connection_lost) and as a characteristic function where it is updated (drain)',
     'in drain() the environment step at `await waiter` may change the flags, resolve futures and add/remove other '
     'coroutines\' waiters, but leaves this coroutine\'s own waiter registered (only drain() itself removes it)',
-    'not covered (see DESIGN C09): SFTP handler cleanup, the other _force_close call sites (abort, disconnect, '
-    '_process_disconnect, timers, _reap_task), client/server _cleanup overrides',
+    'SFTP: every outstanding request has its own pending-or-cancelled future (class invariant proved on '
+    'SFTPClientHandler._send_request, _make_request (request/wait step, as a region), _process_packet, _cleanup); '
+    'the id about to be used is not outstanding (ids are consecutive modulo 2**32); decoding of responses and the '
+    'server side are other properties\' business',
+    'collaborators whose close()/cancel() is assumed not to raise inside the cleanups: listener.close() / '
+    'tcp_listener.close() (asyncssh\'s SSHListener classes; an application-supplied listener object whose close() '
+    'raises would abort SSHConnection._cleanup the way the error handler did before 4a6a160), agent / agent '
+    'listener close(), tunnel.close(), auth.cancel(), timer.cancel(), writer.close(), conn.detach_x11_listener()',
+    'AssertionError out of _flush_recv_buf / _process_close when the session was already detached is listed in '
+    '`raises` (nothing hangs) - it is a robustness defect reported as F-C09-3 '
+    '(notes/findings/c09_resume_after_conn_lost_assert.py), to be dropped from `raises` once repaired',
+    'Specs used as callee contracts carry a `frame` obligation (no declared field outside `modifies` changes)',
+    'not covered (see DESIGN C09): the other _force_close call sites (abort, disconnect, _process_disconnect, '
+    'timers, _reap_task, internal_error), listener.py close paths (C20), SFTP server handler cleanup, '
+    'SSHClientChannel.create / _open_forward after the open is confirmed (session attached by the opener task: the '
+    'order "open confirmed, connection cleanup, opener resumes" is excluded by hand - after _force_close the receive '
+    'sequence number is no longer advanced (_finish_recv_packet), so no later packet of the same segment is accepted, '
+    'and call_soon is FIFO - not by an obligation)',
 ]
 
 # ------------------------------------------------------------------------------------------------ futures
@@ -1173,18 +1212,10 @@ def all_listeners_closed(c):
     return z3.ForAll([k], z3.Implies(z3.Select(m0.dom, k), z3.Select(g.val, z3.Select(m0.val, k))))
 
 
-# Finding F-C09-2 (notes/findings/c09_error_handler_raises.py, audit finding 4): SSHConnection._cleanup calls the
-# application's error handler unprotected; if it raises, the waiter is not resolved, the owner is not told and
-# _close_event is never set (wait_closed() hangs).  With the raising outcome in the stub the obligation
-# `SSHConnection._cleanup#signals(Exception)` is refuted on a tree without the proposed patch
-# (notes/findings/c09_error_handler_raises.patch) and everything is proved on a tree with it.  False = the outcome is
-# left out (then it is an ASSUMPTION, listed below) until the coordinator has repaired /repo or recorded the finding.
-ERROR_HANDLER_MAY_RAISE = False
-if not ERROR_HANDLER_MAY_RAISE:
-    ASSUMPTIONS.append('the application\'s error_handler callback does not raise (it is called unprotected in '
-                       'SSHConnection._cleanup: finding F-C09-2, notes/findings/c09_error_handler_raises.py; set '
-                       'ERROR_HANDLER_MAY_RAISE = True in contracts/c09.py once /repo is repaired)')
-
+# Finding F-C09-2 (notes/findings/c09_error_handler_raises.py, audit finding 4; fixed in /repo by 4a6a160):
+# SSHConnection._cleanup used to call the application's error handler unprotected; when it raised, the waiter was
+# not resolved, the owner not told and _close_event never set (wait_closed() hung).  The stub therefore has the
+# raising outcome: without the try/except around the call `SSHConnection._cleanup#signals(Exception)` is refuted.
 CONN_CLEANUP_STUBS = dict(FUT_STUBS, **{
     # by the contracts proved for the two helpers (Specs cancel_timer_specs)
     'self._cancel_keepalive_timer': contract_stub(lambda: cancel_timer_specs['_keepalive_timer']),
@@ -1195,8 +1226,8 @@ CONN_CLEANUP_STUBS = dict(FUT_STUBS, **{
     'listener.close': listener_close_stub,
     'self._process_global_response': contract_stub(lambda: global_response),
     'self._auth.cancel': counting('ghost_auth_cancelled', 'auth_cancelled'),
-    # application callback (listen(..., error_handler=...)): it can raise anything, see ERROR_HANDLER_MAY_RAISE
-    'self._error_handler': counting('ghost_error_handler_calls', 'error_handler', exc_too=ERROR_HANDLER_MAY_RAISE),
+    # application callback (listen(..., error_handler=...)): it can raise anything
+    'self._error_handler': counting('ghost_error_handler_calls', 'error_handler', exc_too=True),
     'self._owner.connection_lost': counting('ghost_owner_lost', 'owner_lost', exc_too=True),
     'self._tunnel.close': counting('ghost_tunnel_closed', 'tunnel_closed'),
     'self._close_event.set': event_set_stub,
@@ -1629,8 +1660,7 @@ chan_init = Spec(
     ensures=[
         ('registered-exactly-once-under-the-number-it-remembers', lambda c: z3.And(
             z3.BoolVal(len(c.events('add_channel')) == 1),
-            *[c.eq(e[1][0], VRef(c.self_ref.addr) if not isinstance(c.self_ref, VRef) else c.self_ref)
-              for e in c.events('add_channel')],
+            *[c.eq(e[1][0], c.self_ref) for e in c.events('add_channel')],
             z3.Not(isn(c.newv('_recv_chan'))), c.eq(c.newv('_recv_chan'), c.newv('ghost_registered_as')))),
         ('attached-to-the-connection-it-registered-with', lambda c: z3.And(
             z3.Not(isn(c.newv('_conn'))), c.eq(c.newv('_conn'), c.argv('conn')))),
@@ -2142,13 +2172,20 @@ def frame_clause(spec):
         for f in sorted(decl):
             if f in (spec.modifies or ()):
                 continue
-            a, b = c.oldv(f), c.newv(f)
-            if isinstance(a, VMap) and isinstance(b, VMap):
-                conj.append(z3.And(a.dom == b.dom, a.val == b.val))
-            else:
-                conj.append(c.ex.veq(c.new_state, a, b))
+            conj.append(same_value(c, c.oldv(f), c.newv(f)))
         return z3.And(*conj) if conj else z3.BoolVal(True)
     return ('frame', frame)
+
+
+def same_value(c, a, b):
+    da, db = c.ex.deref(c.old_state, a), c.ex.deref(c.new_state, b)
+    if isinstance(da, VMap) and isinstance(db, VMap):
+        return z3.And(da.dom == db.dom, da.val == db.val)
+    if isinstance(da, VDict) and isinstance(db, VDict):       # concrete-key tables (dict literals, setup tables)
+        if list(da.items) != list(db.items):
+            return z3.BoolVal(False)
+        return z3.And(*[same_value(c, da.items[k], db.items[k]) for k in da.items], z3.BoolVal(True))
+    return c.ex.veq(c.new_state, a, b)
 
 
 for _sp in [close_send, discard_recv, flush_send, flush_recv, chan_close, chan_abort, chan_cleanup, force_close,
